@@ -36,6 +36,8 @@ THEOREMS = [P + t for t in (
     # ties to the generated tables
     "repo_plans_safe", "load_safe", "load_safe_error", "load_cases", "validates_after_import_repo", "noReserved_iff", "serial_names_tie",
     "sharedFirst_eval", "disjointFirst_eval",
+    # round 4: graphs next to other graphs (merge_nodes), value shapes of the JSON-validated properties
+    "invB_iff", "serialize_frame", "serialize_ignores_foreign", "validate_setter_produced", "validates_after_import_setter",
 )]
 TRUSTED_BASE = [
     "Model/GraphML.lean is a hand mirror of serialize_graph / extract_graph / add_graph / add_graph_direct / get_graph_id / the four "
@@ -60,7 +62,12 @@ TRUSTED_BASE = [
     "the store is loaded into the driver as graphs.nodes(data=True) / graphs.edges(data=True); the model's edge list is a global "
     "insertion order, and loading the iteration order instead is behaviourally equivalent for extraction (checked by the whole-store "
     "dump comparison after every import)",
-    "validate_graph is modelled for the shared store only (json.loads verdicts passed in by the harness)",
+    "validate_graph: the verdicts of json.loads are computed by the harness with CPython's json for every text found in a "
+    "JSON-validated property and passed to the driver (any JSON value counts as valid: object, array, string, number, boolean, null); "
+    "SetterProduced in validate_setter_produced is the harness predicate lib_c01.setter_producible, evaluated on the implementation's store",
+    "merge_nodes itself (nx.contracted_nodes) is NOT modelled: the stores it leaves behind (links leading from one graph into another, a "
+    "node less in the other graph) enter the model as loaded states; that they satisfy StoreInv - the hypothesis of every shared-store "
+    "theorem - is checked by the driver on every loaded store (request `inv`, Store.invB, tied to StoreInv by invB_iff)",
     "fresh uuids (the model id of a new Topology, NodeIDs handed out by enumerate_graph_nodes) are outside the model: the harness "
     "records the constructor's uuid and passes it to the driver; enumerate is exercised only on texts whose nodes have NodeIDs",
     "Python == between GraphID values is modelled by structural equality (1 == True == 1.0 coincidences are not generated)",
@@ -75,11 +82,15 @@ ASSUMPTIONS = [
     "reached through imports / loads / clones / deletions of simple texts (session_invariant, dsession_invariant); for the other "
     "library calls (add / update / delete of nodes and links) it is the `edit` side condition of those theorems (C04/C05 territory)",
 ]
-RULE = ("case = (store with 1-3 graphs: raw property graphs built by add_node/add_link/update with colliding keys, ints, bools and "
-        "adversarial strings, or API-built Experiment/Substrate topologies) x format x entry point x id policy; plus Topology-level "
+RULE = ("case = (store with 1-4 graphs: raw property graphs built by add_node/add_link/update with colliding keys, ints, bools, "
+        "adversarial strings and all 19 JSON-validated property names holding JSON text of every shape, or API-built Experiment/Substrate "
+        "topologies decorated through the setters (user_data/mf_data/layout_data = any JSON value, labels, capacities, tags, flags, "
+        "allocations, reservation/structural info, ERO, path info, gateway, peer labels, maintenance info); on the shared store 40% of the "
+        "stores have graphs sharing NodeIDs joined by 1-3 merge_nodes calls, target = caller or other graph) x format x entry point x id "
+        "policy; plus Topology-level "
         "sessions (1-3 Topology objects on one store: serialize to string/file, edit, load into the same / an aliasing / another / a "
         "fresh object with or without new_graph_id, constructors, clone_graph (nx and ABC), delete_graph, importer calls on files "
-        "written by Topology.serialize, enumerate_graph_nodes[_to_string]); non-trivial = graph has >= 1 edge and >= 1 value outside "
+        "written by Topology.serialize, enumerate_graph_nodes[_to_string], merge_nodes between two held models that share NodeIDs); non-trivial = graph has >= 1 edge and >= 1 value outside "
         "[A-Za-z0-9]; distinct by canonical snapshot hash x format x entry x policy (x op x store for sessions)")
 
 IMPORT_PLAN = [("string", "new"), ("string", "keep"), ("file", "new"), ("file", "keep"), ("string_direct", "keep"), ("file_direct", "keep")]
@@ -100,8 +111,22 @@ def make_scenario(rng, ctx, idx, topo_share=0.2):
         else:
             graphs.append({"kind": "raw", "gid": "g-%d-%d" % (idx, k),
                            "spec": L.gen_raw_spec(rng, maxlen=maxlen, floats=rng.random() < 0.15)})
-    return {"graphs": graphs, "target": rng.randrange(n), "disjoint": rng.random() < 0.35,
-            "mutate": ("m%d-%d" % (idx, rng.randrange(10 ** 6))) if rng.random() < 0.4 else None}
+    sc = {"graphs": graphs, "target": rng.randrange(n), "disjoint": rng.random() < 0.35,
+          "mutate": ("m%d-%d" % (idx, rng.randrange(10 ** 6))) if rng.random() < 0.4 else None}
+    add_merges(rng, sc)
+    return sc
+
+
+def add_merges(rng, sc, share=0.4):
+    """graphs of one shared store that share NodeIDs, joined by merge_nodes (the delegation / advertisement path): the
+    store then holds links that lead from one graph into another; the target may be the caller or the other graph"""
+    if sc.get("disjoint") or rng.random() >= share:      # the per-graph store's merge_nodes is a documented RuntimeError
+        return
+    if len(sc["graphs"]) == 1 and sc["graphs"][0]["kind"] == "raw":
+        sc["graphs"].append({"kind": "raw", "gid": sc["graphs"][0]["gid"] + "-sib", "spec": L.gen_raw_spec(rng, maxn=4, maxe=5, maxp=3)})
+    sc["merges"] = L.plan_merges(rng, sc["graphs"])
+    if sc["merges"] and rng.random() < 0.5:
+        sc["target"] = rng.choice(sc["merges"])[rng.choice([0, 1])]
 
 
 def build_scenario(sc):
@@ -112,17 +137,33 @@ def build_scenario(sc):
         if g["kind"] == "raw":
             L.build_raw(im.graph(g["gid"]), g["spec"])
             gids.append(g["gid"])
+        elif g["kind"] == "copy":
+            # the saved text of an earlier graph imported under another id: two models with the same NodeIDs
+            im.import_("string", im.serialize(gids[g["of"]], g["fmt"]), g["gid"])
+            gids.append(g["gid"])
         else:
             t = L.gen_topology(random.Random("C01/topo/" + g["seed"]), g["flavour"], g.get("maxlen", 24), importer=im.imp)
             gids.append(t.graph_model.graph_id)
+    im.merge_log = L.apply_merges(im, gids, sc.get("merges") or [])
     return im, gids
 
 
+def count_state(im, gids, res, where):
+    """evidence: merge_nodes outcomes, links between graphs of the store, value shapes of the JSON-validated properties"""
+    for o in getattr(im, "merge_log", []):
+        res.count("%s:merge_nodes:%s" % (where, o))
+    if getattr(im, "merge_log", None):
+        res.count("%s:store-with-cross-graph-links:%s" % (where, min(L.cross_edges(im), 3)))
+    for g in gids:
+        for x in L.json_shapes(im, g):
+            res.count("jsonprop:" + x)
+
+
 def nontrivial_graph(im, gid):
-    g = im.st.extract_graph(gid)
-    if g is None or g.number_of_edges() == 0:
+    sn = L.snapshot(im.st, gid)
+    if sn is None or not sn["edges"]:
         return False
-    for _, d in g.nodes(data=True):
+    for d in L.graph_nodes_data(im, gid):
         for v in d.values():
             if isinstance(v, str) and not v.isalnum() and v != "":
                 return True
@@ -154,6 +195,14 @@ def validate_step(im, gid, lines, expect, res, meta):
     lines.append(L.dumps(["dvalidate" if im.disjoint else "validate", L.val(gid), None, sorted(oks)]))
     expect.append((r, dict(meta, op="validate")))
     res.count("op:%svalidate:%s" % (im.px, "ok" if r[0] == "ok" else r[1]))
+
+
+def inv_step(im, lines, expect, meta):
+    """the store handed to the model satisfies the invariant all shared-store theorems assume (StoreInv, decided by the
+    driver): in particular every store merge_nodes leaves behind"""
+    if not im.disjoint:
+        lines.append(L.dumps(["inv"]))
+        expect.append((["ok", True], dict(meta, op="store-invariant")))
 
 
 def attempt(fn):
@@ -205,8 +254,10 @@ def _run_scenario_corr(sc, res, lines, expect, malformed_rng=None):
     try:
         tgt = gids[sc["target"]]
         px = im.px
+        count_state(im, gids, res, "corr")
         lines.append(L.dumps(im.load_op()))
         expect.append((["ok", None], {"op": "load"}))
+        inv_step(im, lines, expect, {"scenario": sc})
         nt = nontrivial_graph(im, tgt)
         snap_hash = core.sha(canon(L.snapshot(im.st, tgt)))
         texts, docs = {}, {}
@@ -401,6 +452,12 @@ def run_session_corr(sess, res, lines, expect):
             pre, state["pre"] = state["pre"], im.load_op()
             if op in ("new", "edit"):
                 return
+            if op == "merge":
+                res.count("op:session-merge:%s" % (ev["result"][0] if ev["result"][0] != "err" else ev["result"][1]))
+                if ev["result"][0] == "ok":
+                    sync()
+                    inv_step(im, lines, expect, meta)
+                return
             lines.append(L.dumps(pre))
             expect.append((["ok", None], {"op": "load"}))
             kind = "advertized" if run.kinds.get(sp.get("h")) == "adv" or sp.get("kind") == "adv" else "topology"
@@ -490,10 +547,10 @@ def correspondence(ctx, res):
     n = ctx.scale(60, 600)
     lines, expect = [], []
     for case in corpus_cases():
-        sc = {"graphs": [{"kind": "raw", "gid": "corpus", "spec": case["spec"]}], "target": 0}
-        if any(isinstance(v, str) and "\r" in v for v in L.spec_values(case["spec"])):
-            continue   # U+000D is the known character-level finding; the document model has no characters
-        run_scenario_corr(sc, res, lines, expect)
+        for sc in corpus_scenarios(case):
+            if any(isinstance(v, str) and "\r" in v for g in sc["graphs"] if g["kind"] == "raw" for v in L.spec_values(g["spec"])):
+                continue   # U+000D is the known character-level finding; the document model has no characters
+            run_scenario_corr(sc, res, lines, expect)
     for i in range(n):
         sc = make_scenario(rng, ctx, i, topo_share=0.25)
         run_scenario_corr(sc, res, lines, expect, malformed_rng=rng if i % 4 == 0 else None)
@@ -536,6 +593,15 @@ def corpus_cases(sessions=False):
         if ("session" in c) == sessions:
             out.append(c)
     return out
+
+
+def corpus_scenarios(c):
+    """a corpus case is one raw graph ({"spec": …, "disjoint": false | true | "both"}) or a whole scenario
+    ({"scenario": …}: several graphs, merges)"""
+    if "scenario" in c:
+        return [json.loads(json.dumps(c["scenario"]))]
+    return [{"graphs": [{"kind": "raw", "gid": "corpus", "spec": c["spec"]}], "target": 0, "disjoint": disj}
+            for disj in ([False, True] if c.get("disjoint") == "both" else [bool(c.get("disjoint"))])]
 
 
 def diff_signature(fmt, before, after):
@@ -594,6 +660,17 @@ def nid_signature(fmt, before, after):
     return None
 
 
+def _reject_shape(im, gid, exc):
+    """which property / value shape validate_graph() complained about (part of the signature)"""
+    import re as _re
+    m = _re.search(r"JSON property (\w+) with value", str(exc))
+    if not m:
+        return err_kind(exc)
+    name = m.group(1)
+    shapes = sorted({L.json_shape(d[name]) for d in L.graph_nodes_data(im, gid) if name in d and str(d[name]) in str(exc)})
+    return "%s:%s" % (name, "+".join(shapes[:3]) or "?")
+
+
 def check_case(case, res, sink=None):
     """never raises: an exception of the implementation outside the calls the property speaks about, or of the
     harness while reading the implementation's output, is itself recorded with the concrete case"""
@@ -630,8 +707,16 @@ def _check_case(case, res, sink=None):
         try:
             g0.validate_graph()
             valid_before = True
-        except Exception:
+        except Exception as e:
             valid_before = False
+            if L.setter_producible(im, tgt):
+                # "everything the library serializes passes the library's own graph validation": a model whose
+                # JSON-validated properties hold JSON text of any shape (what the setters write) must validate
+                shapes = sorted(set(x for x in L.json_shapes(im, tgt)))
+                bad("validate:rejects-setter-produced-values:%s" % _reject_shape(im, tgt, e),
+                    "validate_graph() rejects a model whose JSON-validated properties all hold valid JSON text: %s" % str(e)[:200],
+                    observed=shapes[:12])
+        must_validate = valid_before or L.setter_producible(im, tgt)
         try:
             text = im.serialize(tgt, fmt)
         except Exception as e:
@@ -692,11 +777,12 @@ def _check_case(case, res, sink=None):
                         expected=_short(c1, 600), observed=_short(c2, 600))
             except Exception as e:
                 bad("%s:%s:reserialize-raises:%s" % (fmt, entry, err_kind(e)), "serialising the imported copy raised %s" % e)
-            if valid_before:
+            if must_validate:
                 try:
                     im.graph(got).validate_graph()
                 except Exception as e:
-                    bad("%s:%s:validate-after-import" % (fmt, entry), "validate_graph() fails after import: %s" % e)
+                    bad("%s:%s:validate-after-import%s" % (fmt, entry, "" if valid_before else ":" + _reject_shape(im, got, e)),
+                        "validate_graph() fails after import: %s" % e)
         if edited is not None and got != tgt and L.snapshot(im.st, tgt) != edited:
             bad("%s:%s:held-model-touched" % (fmt, entry), "importing the saved text under a new id changed the (edited) held model")
         for g, s in others.items():
@@ -754,6 +840,9 @@ class SessionOracle:
                     self.bad(ev, "serialize:%s:%s:%s" % (s.fmt, ev["spec"]["via"], ev["result"][1] if ev["result"][0] == "err" else "none"),
                              "Topology.serialize of a held model failed: %s" % ev.get("exc"))
                 return
+            if s.producible and s.valid is False:
+                self.bad(ev, "validate:rejects-setter-produced-values", "validate_graph() rejects a held model whose JSON-validated "
+                         "properties all hold valid JSON text", observed=sorted(set(L.json_shapes(run.im, s.gid)))[:12])
             if ev["spec"]["via"] == "file" and ev.get("returned") is not None:
                 self.bad(ev, "serialize:file:returns-text", "serialize(file_name=...) returned something")
             try:
@@ -770,6 +859,11 @@ class SessionOracle:
             self.check_enum(run, ev)
         elif op == "clone":
             self.check_clone(run, ev)
+        elif op == "merge":
+            self.res.count("session:merge_nodes:%s" % (ev["result"][0] if ev["result"][0] != "err" else ev["result"][1]))
+            if ev["result"][0] == "ok":
+                self.res.count("session:store-with-cross-graph-links:%d" % min(L.cross_edges(run.im), 3))
+                self.frame(run, ev, {ev["src"], ev["other"]}, "merge")
         elif op == "delete":
             if run.snap(ev["src"]) is not None:
                 self.bad(ev, "delete:graph-still-there", "delete_graph left the graph in the store")
@@ -836,8 +930,10 @@ class SessionOracle:
                 self.bad(ev, "%s:reserialize-differs" % tag, "serializing the loaded model gives different content")
         except Exception as e:
             self.bad(ev, "%s:reserialize-raises:%s" % (tag, err_kind(e)), "serializing the loaded model raised %s" % e)
-        if s.valid and all(ev.get("pre_valid", {}).values()) and not run.validates(got):
-            self.bad(ev, "%s:validate-after-import" % tag, "validate_graph() fails on the loaded model")
+        if ((s.valid and all(ev.get("pre_valid", {}).values())) or (s.producible and L.setter_producible(run.im, got))) \
+                and not run.validates(got):
+            self.bad(ev, "%s:validate-after-import" % tag, "validate_graph() fails on the loaded model",
+                     observed=sorted(set(L.json_shapes(run.im, got)))[:12])
         if op in ("load", "ctor") and s.api is not None and run.kinds.get(sp["h"]) == s.kind:
             v = T.api_view(run.topos[sp["h"]], s.kind)
             if v != s.api:
@@ -949,8 +1045,7 @@ def oracle(ctx, res, n=None):
     rng = ctx.sub_rng("oracle")
     # 1. deterministic corpus cases, all formats and entry points
     for c in corpus_cases():
-        for disj in ([False, True] if c.get("disjoint") == "both" else [bool(c.get("disjoint"))]):
-            sc = {"graphs": [{"kind": "raw", "gid": "corpus", "spec": c["spec"]}], "target": 0, "disjoint": disj}
+        for sc in corpus_scenarios(c):
             for fmt in c.get("fmts", ["graphml", "json"]):
                 for entry, policy in IMPORT_PLAN:
                     res.evaluations += 1
@@ -966,10 +1061,12 @@ def oracle(ctx, res, n=None):
                               "maxlen": 24 if not ctx.thorough else 200}], "target": 0, "disjoint": rng.random() < 0.3}
             if rng.random() < 0.5:
                 sc["graphs"].append({"kind": "raw", "gid": "side-%d" % i, "spec": L.gen_raw_spec(rng, maxn=3, maxe=2)})
+            add_merges(rng, sc, share=0.35)
         else:
             sc = make_scenario(rng, ctx, 10 ** 6 + i, topo_share=0.0)
         combos = [(f, e, p) for f in ("graphml", "json") for e, p in IMPORT_PLAN]
         picks = combos if (ctx.thorough or topo) and i % 3 == 0 else rng.sample(combos, 4)
+        first = [True]
         for fmt, entry, policy in picks:
             res.evaluations += 1
             res.count("%s:%s:%s:%s" % ("topo" if topo else "raw", fmt, entry, policy))
@@ -983,6 +1080,9 @@ def oracle(ctx, res, n=None):
                                            for p in before["nodes"].values() for x in p):
                     res.nontrivial.add("%s/%s/%s/%s" % (core.sha(canon(before)), case["fmt"], case["entry"], case["policy"]))
                 res.count("validate-before:" + str(valid))
+                if first[0]:
+                    first[0] = False
+                    count_state(im, [tgt], res, "oracle")
             check_case(case, res, sink)
         for g in sc["graphs"]:
             if g["kind"] == "raw":
